@@ -141,7 +141,9 @@ kf("C13", "C13-mem2reg-loop-carried", "mem2reg's single-block promotion treats a
 kf("C13", "C13-mem2reg-not-idempotent", "running mem2reg (or the DXIL pipeline) a second time changes the module again (appends expressions), contrary to its documented idempotence",
    ["C13|not-idempotent|mem2reg|*", "C13|not-idempotent|dxil-pipeline|*"])
 kf("C13", "C13-dce-after-inline", "dce applied to an inlined module removes or reorders statements differently on a second run and, for a callee that only calls another helper (F2/callee/H), changes the computed result",
-   ["C13|not-idempotent|dce|*", "C13|behaviour|dce|different-result|F2/callee"])
+   ["C13|not-idempotent|dce|*", "C13|behaviour|dce|different-result|F2/callee/*"])
+kf("C13", "C13-mem2reg-store-before-loop", "mem2reg loses the value a local holds when a loop is entered if the loop's continuing block also stores to that local: `a = a * 31u + 1u; loop { ...; break; continuing { a = a * 31u + 3u; break if c; } } use(a)` reads a wrong value after the loop even when the continuing block never runs; reached also through the DXIL pipeline",
+   ["C13|behaviour|mem2reg|different-result|F2L/*/l", "C13|behaviour|dxil-pipeline|different-result|F2L/*/l", "C13|behaviour|mem2reg|different-result|F2L/*/el", "C13|behaviour|dxil-pipeline|different-result|F2L/*/el"])
 
 # ---------------------------------------------------------------- C18 (DXIL container / bitcode)
 kf("C18", "C18-atomic-ordering-code", "atomicrmw/cmpxchg records carry ordering code 7 (the in-memory enum value) instead of the bitcode AtomicOrderingCodes value 6 for seq_cst",
